@@ -358,7 +358,10 @@ func run(r *mon.Run) {
 			{"case-colliding-names", http.Header{"Content-Type": {"text/html"}, "X-Variant": {"alpha"}, "x-variant": {"beta"}}},
 			{"case-colliding-three", http.Header{"Content-Type": {"text/html"}, "Link": {"one"}, "link": {"two"}, "LINK": {"three"}}},
 			{"colliding-content-type", http.Header{"Content-Type": {"text/html"}, "content-type": {"text/plain"}}},
+			// the colliding pair among many other fields (wherever a Go map iteration puts the two, next to each other or far apart)
+			{"case-colliding-among-many", http.Header{"Content-Type": {"text/html"}, "X-Dup": {"alpha"}, "x-dup": {"beta"}, "Age": {"1"}, "Etag": {"\"e\""}, "Link": {"l"}, "Server": {"s"}, "Vary": {"v"}, "X-A": {"a"}, "X-Z": {"z"}}},
 		}
+		odds = append(odds, odds[3], odds[3], odds[3], odds[3], odds[3]) // (several draws of the map order)
 		for vi, ver := range gen.SXGVersions {
 			for oi, o := range odds {
 				for _, where := range []string{"response", "request"} {
@@ -400,6 +403,13 @@ func run(r *mon.Run) {
 								for _, v := range vs {
 									have[strings.ToLower(k)] = append(have[strings.ToLower(k)], strings.Split(v, ",")...)
 								}
+							}
+							// and whatever Verify said about the exchange in memory, it says about the file
+							tmid := spec.Date.Add(spec.Expires.Sub(spec.Date) / 2)
+							v1, _ := verify(r, fmt.Sprintf("odd-verify-before/%s/%d", ver, oi), e, tmid, ids[0])
+							v2, _ := verify(r, fmt.Sprintf("odd-verify-after/%s/%d", ver, oi), back, tmid, ids[0])
+							if v1.ok != v2.ok {
+								problem = fmt.Sprintf("Verify says %v in memory and %v after Write and ReadExchange", v1.ok, v2.ok)
 							}
 							for k, vs := range want {
 								a, b := append([]string{}, vs...), append([]string{}, have[k]...)
